@@ -33,8 +33,12 @@ var (
 	stateIdle      = protocol.NewState(1, "Idle")
 	stateAcquiring = protocol.NewState(2, "Acquiring")
 	stateAcquired  = protocol.NewState(3, "Acquired")
-	stateBusy      = protocol.NewState(4, "Busy")
-	stateDone      = protocol.NewState(5, "Done")
+	// The specification has one busy state per request kind, so that a reply is
+	// only accepted in answer to the request it belongs to
+	stateBusyHasTx    = protocol.NewState(4, "BusyHasTx")
+	stateBusyNextTx   = protocol.NewState(6, "BusyNextTx")
+	stateBusyGetSizes = protocol.NewState(7, "BusyGetSizes")
+	stateDone         = protocol.NewState(5, "Done")
 )
 
 // LocalTxMonitor protocol state machine
@@ -74,29 +78,39 @@ var StateMap = protocol.StateMap{
 			},
 			{
 				MsgType:  MessageTypeHasTx,
-				NewState: stateBusy,
+				NewState: stateBusyHasTx,
 			},
 			{
 				MsgType:  MessageTypeNextTx,
-				NewState: stateBusy,
+				NewState: stateBusyNextTx,
 			},
 			{
 				MsgType:  MessageTypeGetSizes,
-				NewState: stateBusy,
+				NewState: stateBusyGetSizes,
 			},
 		},
 	},
-	stateBusy: protocol.StateMapEntry{
+	stateBusyHasTx: protocol.StateMapEntry{
 		Agency: protocol.AgencyServer,
 		Transitions: []protocol.StateTransition{
 			{
 				MsgType:  MessageTypeReplyHasTx,
 				NewState: stateAcquired,
 			},
+		},
+	},
+	stateBusyNextTx: protocol.StateMapEntry{
+		Agency: protocol.AgencyServer,
+		Transitions: []protocol.StateTransition{
 			{
 				MsgType:  MessageTypeReplyNextTx,
 				NewState: stateAcquired,
 			},
+		},
+	},
+	stateBusyGetSizes: protocol.StateMapEntry{
+		Agency: protocol.AgencyServer,
+		Transitions: []protocol.StateTransition{
 			{
 				MsgType:  MessageTypeReplyGetSizes,
 				NewState: stateAcquired,
